@@ -30,7 +30,7 @@ ST(o) == [o EXCEPT !.reached = SeqSet(o.reached)]
 LO(o) == [o EXCEPT !.start = RO(o.start), !.calls = SeqSet(o.calls), !.use1 = ST(o.use1), !.use2 = ST(o.use2)]
 
 Report(vs, dr) ==
-   /\ IF vs = {} THEN TRUE ELSE PrintT(<<"VIOL", l, vs>>)
+   /\ \A v \in vs : PrintT(<<"VIOL", l, {v}>>)     \* one short tuple per rule: TLC wraps long tuples over several lines
    /\ IF dr = {} THEN TRUE ELSE PrintT(<<"DRIFT", l, dr>>)
 
 Ev(e) == l <= Len(Trace) /\ Trace[l].ev = e
